@@ -25,6 +25,10 @@ where
 
     read_set: HashMap<LocationAndType, ReadVersion>,
     account_snapshots: HashMap<Address, AccountBasic>,
+    /// Accounts whose record was resolved without its bytecode, keyed by code hash. revm asks for
+    /// the bytecode by hash only when it needs it; the owner gives that request the address context
+    /// that in-block code versions are keyed by.
+    code_owners: HashMap<B256, Address>,
     version: TxVersion,
     blocking_txs: HashSet<TxId>,
     blocked_by_beneficiary: bool,
@@ -59,6 +63,7 @@ where
             mv_memory,
             read_set: HashMap::new(),
             account_snapshots: HashMap::new(),
+            code_owners: HashMap::new(),
             version: TxVersion::new(0, 0),
             blocking_txs: HashSet::new(),
             blocked_by_beneficiary: false,
@@ -79,6 +84,7 @@ where
         self.version = version;
         self.read_set.clear();
         self.account_snapshots.clear();
+        self.code_owners.clear();
         self.blocking_txs.clear();
         self.blocked_by_beneficiary = false;
     }
@@ -303,17 +309,22 @@ where
             self.read_set.insert(location, read_version);
         }
 
-        if let Some(info) = &mut result &&
+        // Like in-order execution, fetch bytecode only when the EVM asks for it: an account whose
+        // code is never run or inspected must not make the block depend on its code being readable.
+        if let Some(info) = &result &&
             !info.is_empty_code_hash() &&
             info.code.is_none()
         {
-            info.code = Some(self.code_by_address(address, info.code_hash)?);
+            self.code_owners.insert(info.code_hash, address);
         }
         Ok(result)
     }
 
     fn code_by_hash(&mut self, code_hash: B256) -> Result<Bytecode, Self::Error> {
-        self.backing_db.code_by_hash_ref(code_hash)
+        match self.code_owners.get(&code_hash).copied() {
+            Some(address) => self.code_by_address(address, code_hash),
+            None => self.backing_db.code_by_hash_ref(code_hash),
+        }
     }
 
     fn storage(&mut self, address: Address, index: U256) -> Result<U256, Self::Error> {
